@@ -1,4 +1,5 @@
 import AFModel.Fitness
+import AFProofs.C03
 import AFModel.FloatOps
 
 /-!
@@ -124,5 +125,37 @@ example : (runCalls intFom cfg₀ g₀ (fun v => v) {} [([1, 2], .fin 10), ([-1,
     = [[1, 2], [5, 6]] := by decide
 example : (fitnessCall intFom cfg₀ g₀ (fun v => v) {} [1, 2] (.fin 10)).1 = .value (-26) := by rfl
 example : (fitnessCall intFom cfg₀ g₀ (fun v => v) {} [-1, 2] (.fin 10)).1 = .value (-1000) := by rfl
+
+end AF.C04
+
+namespace AF.C04
+open AF
+
+/-- C03 and C04 composed: with the model's real gate, a search receives the likelihood-based figure
+of merit exactly for vectors of the right length that are inside every limit and satisfy every
+assertion, and the resample value for every other vector of the right length. -/
+theorem fom_with_model_gate {V : Type} [Inhabited V] (ops : Ops V) (fo : FomOps V) (cfg : FitCfg V)
+    (t : Node V) (lims : List (V × V)) (asserts : List (Asrt V)) (lp) (st : FitSt V) (v : List V) (ll : V)
+    (hl : v.length = count t) :
+    (fitnessCall fo cfg (fun v => gate ops t lims asserts v false) lp st v (.fin ll)).1 =
+      if limitsOk ops lims v = true ∧ (∀ a ∈ asserts, evalA ops (valOf (argsOfVector t v)) a = true) then
+        .value (let fom := if cfg.fomIsLL then ll else fo.add ll (pySum fo (lp v))
+                if cfg.convertChi then fo.mulNeg2 fom else fom)
+      else .value cfg.resample := by
+  by_cases hlim : limitsOk ops lims v = true
+  · by_cases ha : ∀ a ∈ asserts, evalA ops (valOf (argsOfVector t v)) a = true
+    · have hg : gate ops t lims asserts v false = .ok (instFromVector ops t v) :=
+        (C03.gate_ok_iff ops t lims asserts v _).mpr ⟨hl, hlim, ha, rfl⟩
+      rw [if_pos ⟨hlim, ha⟩]
+      exact fom_on_success fo cfg _ lp st v _ ll hg
+    · rw [if_neg (fun h => ha h.2)]
+      have hall : asserts.all (evalA ops (valOf (argsOfVector t v))) = false := by
+        rw [Bool.eq_false_iff]; intro h; exact ha (List.all_eq_true.mp h)
+      have hg : gate ops t lims asserts v false = .error .fit := by simp [gate, hl, hlim, hall]
+      simp [fitnessCall, hg]
+  · rw [if_neg (fun h => hlim h.1)]
+    have hf : limitsOk ops lims v = false := by simpa using hlim
+    have hg : gate ops t lims asserts v false = .error .priorLimit := C03.gate_limit_error ops t lims asserts v hl hf
+    simp [fitnessCall, hg]
 
 end AF.C04
